@@ -127,6 +127,31 @@ fn entries(w: &World, roles: &Roles) -> Vec<Entry> {
             must_succeed_for_holder: open && obs.v[v].cfg.fluctuation_limit_ratio.is_zero(),
             at_time: None,
         });
+        // degenerate arguments: an authorisation test must not depend on the size of the request
+        es.push(Entry {
+            name: "vamm.SwapInput#zero",
+            target: Target::Vamm(v),
+            msg: jv(&vamm::ExecuteMsg::SwapInput { direction: vamm::Direction::RemoveFromAmm, quote_asset_amount: u(0), base_asset_limit: u(0), can_go_over_fluctuation: false }),
+            allowed: engine.clone(),
+            must_succeed_for_holder: false,
+            at_time: None,
+        });
+        es.push(Entry {
+            name: "vamm.SwapOutput#zero",
+            target: Target::Vamm(v),
+            msg: jv(&vamm::ExecuteMsg::SwapOutput { direction: vamm::Direction::RemoveFromAmm, base_asset_amount: u(0), quote_asset_limit: u(0) }),
+            allowed: engine.clone(),
+            must_succeed_for_holder: false,
+            at_time: None,
+        });
+        es.push(Entry {
+            name: "vamm.SwapOutput#huge",
+            target: Target::Vamm(v),
+            msg: jv(&vamm::ExecuteMsg::SwapOutput { direction: vamm::Direction::RemoveFromAmm, base_asset_amount: u(u128::MAX / 2), quote_asset_limit: u(1) }),
+            allowed: engine.clone(),
+            must_succeed_for_holder: false,
+            at_time: None,
+        });
         es.push(Entry {
             name: "vamm.SettleFunding",
             target: Target::Vamm(v),
@@ -211,6 +236,22 @@ fn entries(w: &World, roles: &Roles) -> Vec<Entry> {
             name: "orphan.SwapOutput",
             target: Target::Orphan,
             msg: jv(&vamm::ExecuteMsg::SwapOutput { direction: vamm::Direction::AddToAmm, base_asset_amount: u(d / 10), quote_asset_limit: u(0) }),
+            allowed: nobody.clone(),
+            must_succeed_for_holder: false,
+            at_time: None,
+        });
+        es.push(Entry {
+            name: "orphan.SwapOutput#zero",
+            target: Target::Orphan,
+            msg: jv(&vamm::ExecuteMsg::SwapOutput { direction: vamm::Direction::AddToAmm, base_asset_amount: u(0), quote_asset_limit: u(0) }),
+            allowed: nobody.clone(),
+            must_succeed_for_holder: false,
+            at_time: None,
+        });
+        es.push(Entry {
+            name: "orphan.SwapInput#zero",
+            target: Target::Orphan,
+            msg: jv(&vamm::ExecuteMsg::SwapInput { direction: vamm::Direction::AddToAmm, quote_asset_amount: u(0), base_asset_limit: u(0), can_go_over_fluctuation: true }),
             allowed: nobody.clone(),
             must_succeed_for_holder: false,
             at_time: None,
@@ -331,7 +372,23 @@ fn entries(w: &World, roles: &Roles) -> Vec<Entry> {
     es.push(Entry {
         name: "fund.Withdraw",
         target: Target::Fund,
-        msg: jv(&fund::ExecuteMsg::Withdraw { token: asset, amount: u(1) }),
+        msg: jv(&fund::ExecuteMsg::Withdraw { token: asset.clone(), amount: u(1) }),
+        allowed: vec![w.engine.to_string()],
+        must_succeed_for_holder: obs.bal[w.idx_fund()] >= 1,
+        at_time: None,
+    });
+    es.push(Entry {
+        name: "fund.Withdraw#zero",
+        target: Target::Fund,
+        msg: jv(&fund::ExecuteMsg::Withdraw { token: asset.clone(), amount: u(0) }),
+        allowed: vec![w.engine.to_string()],
+        must_succeed_for_holder: false,
+        at_time: None,
+    });
+    es.push(Entry {
+        name: "fund.Withdraw#all",
+        target: Target::Fund,
+        msg: jv(&fund::ExecuteMsg::Withdraw { token: asset, amount: u(obs.bal[w.idx_fund()]) }),
         allowed: vec![w.engine.to_string()],
         must_succeed_for_holder: obs.bal[w.idx_fund()] >= 1,
         at_time: None,
@@ -390,7 +447,23 @@ fn entries(w: &World, roles: &Roles) -> Vec<Entry> {
     es.push(Entry {
         name: "pool.SendToken",
         target: Target::Pool,
-        msg: jv(&fp::ExecuteMsg::SendToken { token: collateral, amount: u(1), recipient: "stranger".into() }),
+        msg: jv(&fp::ExecuteMsg::SendToken { token: collateral.clone(), amount: u(1), recipient: "stranger".into() }),
+        allowed: vec![roles.pool_owner.clone()],
+        must_succeed_for_holder: obs.bal[w.idx_fee_pool()] >= 1,
+        at_time: None,
+    });
+    es.push(Entry {
+        name: "pool.SendToken#zero",
+        target: Target::Pool,
+        msg: jv(&fp::ExecuteMsg::SendToken { token: collateral.clone(), amount: u(0), recipient: "stranger".into() }),
+        allowed: vec![roles.pool_owner.clone()],
+        must_succeed_for_holder: false,
+        at_time: None,
+    });
+    es.push(Entry {
+        name: "pool.SendToken#self",
+        target: Target::Pool,
+        msg: jv(&fp::ExecuteMsg::SendToken { token: collateral, amount: u(obs.bal[w.idx_fee_pool()]), recipient: "alice".into() }),
         allowed: vec![roles.pool_owner.clone()],
         must_succeed_for_holder: obs.bal[w.idx_fee_pool()] >= 1,
         at_time: None,
@@ -545,7 +618,7 @@ impl Property for C09 {
         Some("matrix_entries")
     }
     fn rule(&self) -> String {
-        "deployments of all five contracts (1-2 vAMMs, each with the repository's own price feed, cw20 or native collateral) brought into a generated state by up to 10 engine / admin operations (positions, paused, closed, unregistered, whitelisted); then the complete matrix of 26 privileged message variants (plus swaps / funding settlement / SetOpen on an extra vAMM that was opened before any margin engine or insurance fund was configured, where nobody holds those roles) (canonical instances whose arguments are valid in that state) x 9+ senders (deployment owner, pauser, engine contract, insurance-fund contract, a vAMM contract, a trader, a stranger, two fresh admin accounts, every current role holder) is executed, each entry from the same snapshot: a sender that does not hold the message's role must get Err with the raw storage dump unchanged; the role holder must succeed whenever nothing but authorisation can fail. Then up to 4 (thorough: 8) generated role transfers (vAMM owner, engine owner, pauser, fund owner, fee-pool owner, feed owner, and on the extra vAMM its owner and the first assignment / later re-assignment of its margin-engine and insurance-fund roles; chains and transfers back) are applied, the harness tracking the holders from the successful transfer messages, and after each the matrix of the affected contract is enumerated again. evaluations = matrix entries. Non-trivial: a case with >= 1 successful role transfer and >= 1 open position. Distinct by digest of the case.".into()
+        "deployments of all five contracts (1-2 vAMMs, each with the repository's own price feed, cw20 or native collateral) brought into a generated state by up to 10 engine / admin operations (positions, paused, closed, unregistered, whitelisted); then the complete matrix of 26 privileged message variants, several of them also with degenerate arguments (zero / whole-balance / oversized amounts: authorisation must not depend on the size of the request) (plus swaps / funding settlement / SetOpen on an extra vAMM that was opened before any margin engine or insurance fund was configured, where nobody holds those roles) (canonical instances whose arguments are valid in that state) x 9+ senders (deployment owner, pauser, engine contract, insurance-fund contract, a vAMM contract, a trader, a stranger, two fresh admin accounts, every current role holder) is executed, each entry from the same snapshot: a sender that does not hold the message's role must get Err with the raw storage dump unchanged; the role holder must succeed whenever nothing but authorisation can fail. Then up to 4 (thorough: 8) generated role transfers (vAMM owner, engine owner, pauser, fund owner, fee-pool owner, feed owner, and on the extra vAMM its owner and the first assignment / later re-assignment of its margin-engine and insurance-fund roles; chains and transfers back) are applied, the harness tracking the holders from the successful transfer messages, and after each the matrix of the affected contract is enumerated again. evaluations = matrix entries. Non-trivial: a case with >= 1 successful role transfer and >= 1 open position. Distinct by digest of the case.".into()
     }
     fn assumptions(&self) -> Vec<String> {
         vec![
